@@ -69,6 +69,7 @@ def main():
         if os.path.exists(dpath):
             os.remove(dpath)
         run("git checkout -- .", "/repo")
+        run("git checkout -- evidence", "/verif")  # the evidence files describe runs on the unchanged tree only
     assert run("git status --short", "/repo")[1].strip() == "", "/repo not restored"
     dst = os.path.join("/verif/seeded", sid)
     os.makedirs(dst, exist_ok=True)
